@@ -159,5 +159,7 @@ def run(rep, tier):
     # the partition must survive sliver absorption (default threshold is on in save())
     for k in (1, 2):
         prep_table(rep, "T10-partition", k, True, "none" if tier == "quick" else "both")
+    prep_table(rep, "T10-partition", 1, True, "both")       # an override together with the sliver threshold
+    prep_table(rep, "T10-partition", 1, False, "none", narrow=True)  # a tier shorter than its textgrid
     rep.rule("B2-save-order", "in Textgrid.save the text is computed (and can raise) before the destination is opened for writing: a failed save leaves no truncated, ill-formed file (shared with C04/C13)")
     common.rule_save_order(rep, ["Textgrid.save"])
